@@ -40,6 +40,10 @@ function cacheRewrittenSourceMap (filename, fileContent) {
   }
 }
 
+function removeRewrittenSourceMap (filename) {
+  rewrittenSourceMapsCache.delete(filename)
+}
+
 function getFilePathFromName (filename) {
   const filenameParts = filename.split(path.sep)
   filenameParts.pop()
@@ -94,5 +98,6 @@ module.exports = {
   getSourcePathAndLineFromSourceMaps,
   getOriginalPathAndLineFromSourceMap,
   cacheRewrittenSourceMap,
+  removeRewrittenSourceMap,
   generateSourceMapFromFileContent
 }
